@@ -248,7 +248,8 @@ fn gather_seqmaps(sections: Vec<SeqmapRawSection<'_>>) -> GatheredSeqmaps {
         }
     }
     for key in maps.keys().cloned().collect::<Vec<_>>() {
-        if key.starts_with(ENUM_SECT_START) && key.ends_with(ENUM_SECT_END) {
+        // (the length check rejects a key in which the two delimiters overlap, like `enum(name=")`)
+        if key.starts_with(ENUM_SECT_START) && key.ends_with(ENUM_SECT_END) && key.len() >= ENUM_SECT_START.len() + ENUM_SECT_END.len() {
             let map = maps.remove(&key).unwrap();
             let enum_name = sp!(key.span => key[ENUM_SECT_START.len()..key.len()-ENUM_SECT_END.len()].to_string());
             enum_maps.insert(enum_name, map);
